@@ -63,7 +63,7 @@ Print Assumptions C01_unclearing_free_refuted.
     whose candidates lie inside their segment; the statement without that
     hypothesis ([TotalProofs.core_total_full]) is refuted
     ([C01_core_total_needs_candidate_shape]).  The earlier partial theorems are kept: *)
-From RimeV Require Eng.Api Eng.Ctx Eng.Engine Eng.Oracle Eng.Spec Eng.CommitProofs Eng.TotalFull Eng.TotalProofs Eng.PunctProofs Eng.KbProofs Eng.WfProofs Eng.Procs.
+From RimeV Require Eng.Api Eng.Ctx Eng.Engine Eng.Oracle Eng.Spec Eng.CommitProofs Eng.TotalFull Eng.TotalProofs Eng.PunctProofs Eng.KbProofs Eng.WfProofs Eng.Procs Eng.AsciiProofs Eng.Keys.
 
 (** for EVERY history of API operations with arbitrary arguments (keys with any
     code/mask, indices up to SIZE_MAX, carets beyond the end, options, …), any
@@ -263,3 +263,58 @@ Theorem C01_crash_kinds_synth_kb :
                               (RimeV.Eng.Oracle.synth_translate (RimeV.Eng.Oracle.synth_kb_cfg fluid dlog)) ops)).
 Proof. exact RimeV.Eng.KbProofs.crash_kinds_synth_kb. Qed.
 Print Assumptions C01_crash_kinds_synth_kb.
+
+(** * round 4: ascii_composer / ascii_segmentor in the modelled core (Eng stage 2) *)
+
+(** full totality (no undefined operation over all histories, mode-switch keys of every style, Caps Lock, the
+    tap window on any clock) for the plain chain with ascii_composer and key_binder in front *)
+Theorem C01_core_total_synth_acplain :
+  forall fluid dlog ops,
+    List.forallb RimeV.Eng.CommitProofs.not_crash
+      (snd (RimeV.Eng.Api.run (RimeV.Eng.Oracle.synth_acplain_cfg fluid dlog) RimeV.Eng.Oracle.oracle_translate ops)) = true.
+Proof. exact RimeV.Eng.AsciiProofs.core_total_synth_acplain. Qed.
+Print Assumptions C01_core_total_synth_acplain.
+
+(** the stock chain order with ascii_segmentor and the punctuator components: every crash the model can reach is of
+    one of the admitted kinds (no null dereference, no invalid page range; recursion / dangling only in the source
+    shapes without their guards) *)
+Theorem C01_crash_kinds_synth_ascii :
+  forall fluid dlog ops,
+    List.Forall (RimeV.Eng.WfProofs.crash_kind_ok (RimeV.Eng.Oracle.synth_ascii_cfg fluid dlog))
+      (snd (RimeV.Eng.Api.run (RimeV.Eng.Oracle.synth_ascii_cfg fluid dlog)
+                              (RimeV.Eng.Oracle.synth_translate (RimeV.Eng.Oracle.synth_ascii_cfg fluid dlog)) ops)).
+Proof. exact RimeV.Eng.AsciiProofs.crash_kinds_synth_ascii. Qed.
+Print Assumptions C01_crash_kinds_synth_ascii.
+
+(** what the mode-switch machinery does, for any configuration: in ascii mode and idle every ordinary key is rejected
+    ("direct commit") and only the pressed-flags change *)
+Theorem C01_ascii_mode_idle_rejects :
+  forall cfg translate s k,
+    RimeV.Eng.AsciiProofs.ordinary_key k = true ->
+    RimeV.Eng.Ctx.get_option (RimeV.Eng.Engine.st_ctx s) RimeV.Eng.Ctx.opt_ascii_mode = true ->
+    RimeV.Eng.Ctx.is_composing (RimeV.Eng.Engine.st_ctx s) = false ->
+    RimeV.Eng.Procs.ascii_composer_process cfg translate s k = (RimeV.Eng.Procs.ac_unpress s, RimeV.Eng.Procs.PRejected).
+Proof. exact RimeV.Eng.AsciiProofs.ascii_mode_idle_rejects. Qed.
+Print Assumptions C01_ascii_mode_idle_rejects.
+
+(** a Shift / Control key released 500 ms or more after it went down toggles nothing *)
+Theorem C01_ascii_tap_window :
+  forall cfg translate s k,
+    negb ((RimeV.Eng.Keys.k_shift k && RimeV.Eng.Keys.k_ctrl k) || RimeV.Eng.Keys.k_alt k || RimeV.Eng.Keys.k_super k) = true ->
+    RimeV.Eng.Procs.ac_style_is_noop (RimeV.Eng.Procs.ac_caps_style cfg) = true ->
+    List.existsb (BinInt.Z.eqb (RimeV.Eng.Keys.k_code k))
+      [RimeV.Eng.Procs.XK_Shift_L; RimeV.Eng.Procs.XK_Shift_R; RimeV.Eng.Procs.XK_Control_L; RimeV.Eng.Procs.XK_Control_R] = true ->
+    RimeV.Eng.Keys.k_release k = true ->
+    BinNat.N.le (RimeV.Eng.Engine.ac_expire (RimeV.Eng.Engine.st_ac s)) (RimeV.Eng.Engine.st_clock s) ->
+    RimeV.Eng.Engine.st_ctx (fst (RimeV.Eng.Procs.ascii_composer_process cfg translate s k)) = RimeV.Eng.Engine.st_ctx s /\
+    snd (RimeV.Eng.Procs.ascii_composer_process cfg translate s k) = RimeV.Eng.Procs.PNoop.
+Proof. exact RimeV.Eng.AsciiProofs.tap_window. Qed.
+Print Assumptions C01_ascii_tap_window.
+
+(** inline ascii mode ends with the composition: the slot on update_notifier_ switches ascii_mode off and disconnects *)
+Theorem C01_inline_ascii_leaves_with_the_composition :
+  forall c, RimeV.Eng.Ctx.cx_conn c = true -> RimeV.Eng.Ctx.is_composing c = false ->
+    RimeV.Eng.Ctx.get_option (RimeV.Eng.Engine.ac_on_update c) RimeV.Eng.Ctx.opt_ascii_mode = false /\
+    RimeV.Eng.Ctx.cx_conn (RimeV.Eng.Engine.ac_on_update c) = false.
+Proof. exact RimeV.Eng.AsciiProofs.inline_leaves_ascii_mode. Qed.
+Print Assumptions C01_inline_ascii_leaves_with_the_composition.
